@@ -11,7 +11,8 @@ Proof      : coq/Props/C20.v -- C20_refine_s3 / C20_refine_local / C20_backends_
 Tie        : correspondence, real code vs Coq model (vm_compute):
                gen-kernels   _get_s3_key / list_files Prefix / rel_path stripping / __init__ prefix /
                              create_storage_backend join  vs  Gen/GenS3.v, all strings over {a,b,/} len<=4
-               backends      LocalStorageBackend (temp dir) and S3StorageBackend (fakes3) vs Model/Backend.v
+               backends      every S3 request issued per operation (kind, key/prefix, count) vs Model/BackendTrace.v;
+                             LocalStorageBackend (temp dir) and S3StorageBackend (fakes3) vs Model/Backend.v
                              on enumerated + random op sequences over a 12-key space with sibling-prefix
                              names; also raw-string sequences OUTSIDE the canonical domain (leading/trailing
                              slashes, a key that is a directory of another, exists("dir/"), key = prefix)
@@ -43,13 +44,13 @@ from harness.lib.coqio import C, Some
 
 LEVEL = "proof"
 THEOREMS = [
-    "C20_refine_s3", "C20_refine_local", "C20_backends_agree",
+    "C20_refine_s3", "C20_refine_local", "C20_backends_agree", "C20_leading_slash_same",
     "C20_range_equiv", "C20_range_negative_seek",
     "C20_retry_masks", "C20_retry_permanent", "C20_retry_nonretryable", "C20_retry_exhaust",
     "C20_retry_returns_own_value", "C20_retry_raises_own_error",
     "C20_s3_retry_masks", "C20_s3_retry_permanent", "C20_s3_retry_exhaust",
 ]
-REQ = ["DS.Model.Str", "DS.Gen.GenS3", "DS.Model.Backend", "DS.Model.Range", "DS.Model.Retry", "DS.Model.C20IO"]
+REQ = ["DS.Model.Str", "DS.Gen.GenS3", "DS.Model.Backend", "DS.Model.Range", "DS.Model.Retry", "DS.Model.BackendTrace", "DS.Model.C20IO"]
 
 MANIFEST_ENTRY = {
     "level_text": "C20_refine_s3 / C20_refine_local / C20_backends_agree proved in Coq for every operation sequence over canonical "
@@ -197,7 +198,14 @@ def run_s3(ops: List[Tuple[Any, ...]], raw_prefix: str, foreign: List[Tuple[str,
     for k, v in foreign:
         s3.seed(k, v)
     be = make_s3_backend(s3, prefix=raw_prefix)
-    return [apply_op(be, op) for op in ops], s3
+    out = []
+    traces: List[List[Tuple[str, str, bool]]] = []
+    for op in ops:
+        s3.clear_log()
+        out.append(apply_op(be, op))
+        traces.append([(r["op"], r.get("Key") if r.get("Key") is not None else r.get("Prefix"), r.get("MaxKeys") == 1) for r in s3.log])
+    s3.traces = traces  # type: ignore[attr-defined]
+    return out, s3
 
 
 def spec_oracle(ops: List[Tuple[Any, ...]]) -> List[Tuple[Any, ...]]:
@@ -327,8 +335,8 @@ def oracle_backends(ctx, cases) -> Dict[int, Tuple[List, List]]:
     nviol = 0
     for idx, (pfx, F, ops) in enumerate(cases):
         lo = run_local(ctx, ops)
-        s3o, _ = run_s3(ops, pfx, F)
-        obs[idx] = (lo, s3o)
+        s3o, s3c = run_s3(ops, pfx, F)
+        obs[idx] = (lo, s3o, s3c.traces)
         ctx.count(1, ("ops", pfx, repr(ops)))
         sp = spec_oracle(ops)
         if lo == s3o == sp:
@@ -381,7 +389,7 @@ def corr_backends(ctx, cases, impl_obs) -> None:
     for idx, ((pfx, F, ops), g) in enumerate(zip(cases, got)):
         spec_m, local_m, s3_m, wf, pf, fo = g
         spec_m, local_m, s3_m = [model_obs(o) for o in spec_m], [model_obs(o) for o in local_m], [model_obs(o) for o in s3_m]
-        lo, s3o = impl_obs[idx]
+        lo, s3o, _tr = impl_obs[idx]
         if not (wf and pf and fo):
             outside += 1
         elif not (spec_m == local_m == s3_m):
@@ -396,8 +404,23 @@ def corr_backends(ctx, cases, impl_obs) -> None:
     ctx.correspondence("backend-s3", len(cases), bad_s3)
     ctx.correspondence("backend-theorem-domain", len(cases), bad_thm)
     ctx.stats["backend_cases_outside_theorem_domain"] = outside
+    # which requests each operation issued, and how many times (with_s3_retry around a consistent store)
+    exprs = [f"trace_case 2 {cstr(pfx)} {foreign_coq(F)} [" + "; ".join(op_coq(o, "kk") for o in ops) + "]" for pfx, F, ops in cases]
+    got = coqbuild.coq_eval(REQ, exprs, chunk=120)
+    bad_tr = []
+    nreq = 0
+    for idx, ((pfx, F, ops), g) in enumerate(zip(cases, got)):
+        impl_tr = [[tuple(r) for r in tr] for tr in impl_obs[idx][2]]
+        model_tr = [[(r.args[0], r.args[1], r.args[2]) for r in tr] for tr in g]
+        nreq += sum(len(x) for x in impl_tr)
+        i = first_diff(impl_tr, model_tr)
+        if i is not None:
+            bad_tr.append({"prefix": pfx, "ops": ops_json(ops), "index": i, "impl": impl_tr[i], "model": model_tr[i] if i < len(model_tr) else None})
+    ctx.correspondence("backend-s3-requests", len(cases), bad_tr)
+    ctx.stats["s3_requests_compared"] = nreq
     if cases:
-        ctx.sample({"backend_case": {"prefix": cases[0][0], "ops": ops_json(cases[0][2]), "local": [list(map(str, o)) for o in impl_obs[0][0]]}})
+        ctx.sample({"backend_case": {"prefix": cases[0][0], "ops": ops_json(cases[0][2]), "local": [list(map(str, o)) for o in impl_obs[0][0]],
+                                     "s3_requests": impl_obs[0][2]}})
 
 
 def corr_raw(ctx) -> None:
